@@ -5,9 +5,26 @@ from props import C25 as relay
 PID = "C26"
 READY = False
 MANIFEST = {
-    "level_text": "",
-    "level_note": "",
-    "technique": "",
+    "level_text": "PARTIAL. Proved in Lean 4 about the relay model, for every event sequence over any number of clients and arbitrary "
+                  "bytes in arbitrary chunks: the protocol loop always terminates — the one branch in which the C++ would spin forever "
+                  "(handle_identity_ready closing the session inside process_protocol) is unreachable (total); once every accepted "
+                  "client has seen EOF or an error there is no session, no registration, and the closed descriptors are exactly the "
+                  "accepted clients, none closed twice (release, release_spec); at every moment no descriptor is closed twice, a closed "
+                  "client has no session, no registration outlives its session, and EOF/error removes the session in the same step "
+                  "(accounting, eof_removes). Not proved: absence of memory errors in the compiled binary — that part is an observation: "
+                  "the real RelayServer runs under ASan+UBSan in the correspondence harness on malformed streams (partial lines, CRLF, "
+                  "NUL/binary, wrong-length ids, 64 KiB and 1 MiB lines, identity fragments) with every disconnect order of four clients, "
+                  "and after every op sessions_, registered_ and /proc/self/fd are compared with the clients still connected by the Lean "
+                  "monitor (specification predicate Released).",
+    "level_note": "Partial because 'keeps running without memory errors' is a statement about the compiled C++ object code: the model has "
+                  "no memory to corrupt, so only termination and resource release are theorems; memory errors are looked for with "
+                  "sanitizers on generated inputs. Also outside: EventLoop::run (a watcher's std::function is erased while its callback "
+                  "executes; a stale event of an epoll batch can be dispatched to a new client that reuses the descriptor number), "
+                  "unbounded buffering of a newline-free line or of a slow partner, send() errors. Trusted: Lean kernel, hand transcription "
+                  "(checked by the differential run), ASan/UBSan, /proc/self/fd. Holds for the repaired code (C25 patch); the model is the "
+                  "one of C25.",
+    "technique": "Lean 4 invariant proof (termination + resource accounting over all event sequences) + sanitizer-instrumented "
+                 "model/implementation differential run on real sockets with a Lean monitor",
 }
 
 
@@ -56,7 +73,7 @@ def spec() -> Spec:
         extract=relay.extract,
         nontrivial=nontrivial,
         post=post,
-        budget={"quick": 500, "thorough": 8000},
+        budget={"quick": 350, "thorough": 6000},
         search_budget={"quick": 2000, "thorough": 16000},
         per_case_timeout=60.0,
         rule="malformed byte streams (partial lines, CRLF, NUL/binary, wrong-length and non-hex ids, wrong argument counts, lines of "
